@@ -248,6 +248,17 @@ class SymCx(BaseCx):
             ex.assume(z3.And(v >= lo, v <= hi))
         return s
 
+    def real(self, name, lo, hi):
+        """A symbolic real number in [lo, hi] (exact-real stand-in for a float)."""
+        from . import reals
+        ex = self.ex
+        v = ex.declare(name, 'real', lambda: z3.Real(name))
+        if ex.pos < len(ex.trail) and ex.trail[ex.pos].is_assume:
+            ex.pos += 1
+        else:
+            ex.assume(z3.And(v >= reals.const(lo), v <= reals.const(hi)))
+        return reals.SymReal(v)
+
     def bool(self, name):
         """A symbolic boolean decided by forking (returns a concrete bool)."""
         return bool(self.int(name, 0, 1) == 1)
@@ -330,7 +341,40 @@ class SymCx(BaseCx):
             m = ex.query_model(*extra) if extra else ex.get_model()
             if m is None:
                 return      # the check holds on this path
-        self.violations.append(Violation(label, ex.model_dict(m), detail))
+        v = Violation(label, ex.model_dict(m), detail)
+        # further witnesses of the same violation: used only if the first one does
+        # not reproduce on the real code (the real-arithmetic models over-approximate
+        # floats, so a witness can sit on a knife edge that doubles round away)
+        v.alternatives = []
+        if ex.rounding or any(kind == 'real' for _, kind in ex.inputs.values()):
+            ints = [(n, var) for n, (var, kind) in ex.inputs.items() if kind == 'int' and '!' not in n]
+            ex.solver.push()
+            try:
+                cur = m
+                for _ in range(12):
+                    ex.solver.add(z3.Or(*[var != cur.eval(var, model_completion=True) for n, var in ints]) if ints
+                                  else z3.BoolVal(False))
+                    if extra:
+                        ex.solver.add(*extra)
+                    r = ex.solver.check()
+                    if r != z3.sat:
+                        break
+                    cur = ex.solver.model()
+                    v.alternatives.append(ex.model_dict(cur))
+            finally:
+                ex.solver.pop()
+        self.violations.append(v)
+
+    def close(self, a, b, ulps=0, scale=0.0):
+        """a == b in the exact-real model; |a-b| <= ulps * 2**-53 * |b| in the
+        rounding model (formula).  `scale` only widens the float tolerance of
+        the concrete cross-check (differences of large clock values)."""
+        from . import reals
+        ea, eb = reals.to_expr(a), reals.to_expr(b)
+        if not self.ex.rounding or not ulps:
+            return SymBool(ea == eb)
+        tol = z3.RealVal('%d/9007199254740992' % ulps) * z3.If(eb >= 0, eb, -eb)
+        return SymBool(z3.And(ea - eb <= tol, eb - ea <= tol))
 
     def valid(self, cond):
         """Is cond true for EVERY input of the current path?  One query, no fork."""
@@ -362,6 +406,13 @@ class ConCx(BaseCx):
         if not (lo <= v <= hi):
             raise PathAbort()
         return int(v)
+
+    def real(self, name, lo, hi):
+        v = self._get(name, lo)
+        if isinstance(v, str):
+            import fractions
+            v = fractions.Fraction(v)
+        return float(v)
 
     def bool(self, name):
         return self.int(name, 0, 1) == 1
@@ -398,6 +449,10 @@ class ConCx(BaseCx):
 
     def valid(self, cond):
         return bool(cond)
+
+    def close(self, a, b, ulps=0, scale=0.0):
+        a, b = float(a), float(b)
+        return abs(a - b) <= 1e-9 * max(abs(a), abs(b), scale) + 1e-300
 
     def eval_repr(self, text, namespace):
         return eval(text, dict(namespace))   # noqa: S307
@@ -463,12 +518,13 @@ class JobResult:
 
 def run_job(hdef, params, known=(), max_paths=2_000_000, deadline_s=3600,
             xcheck_every=1, repo_prefix=None, width=None, use_trace=True,
-            max_violations=8):
+            max_violations=8, rounding=False, solver_timeout_ms=60000):
     """Explore every path of one harness instance.  Verdict: HOLDS, VIOLATION
     or INCONCLUSIVE (never HOLDS unless the trail was exhausted)."""
     res = JobResult(hdef.name, params)
     t0 = time.time()
-    ex = Explorer(width=core.W if width is None else width)
+    ex = Explorer(width=core.W if width is None else width, timeout_ms=solver_timeout_ms)
+    ex.rounding = rounding
     stubs.snapshot_globals()
     seen_labels = set()
     inconclusive = []
@@ -565,8 +621,14 @@ def run_job(hdef, params, known=(), max_paths=2_000_000, deadline_s=3600,
                 ccx, escaped = run_concrete(hdef, params, v.model)
                 res.replays += 1
                 ok = (v.label in ccx.failed) or (escaped is not None and escaped == v.label)
-                if not ok and v.label.startswith('uncaught:'):
-                    ok = escaped == v.label
+                for alt in getattr(v, 'alternatives', []):
+                    if ok:
+                        break
+                    ccx, escaped = run_concrete(hdef, params, alt)
+                    res.replays += 1
+                    ok = (v.label in ccx.failed) or (escaped is not None and escaped == v.label)
+                    if ok:
+                        v.model = alt
                 if ok:
                     confirmed.append({'label': v.label, 'model': v.model, 'detail': v.detail})
                 else:
